@@ -109,6 +109,9 @@ def answer (toks : List String) : String :=
     | some st =>
       s!"{showBoolMat (toMat st.A N N)}|{showPairs (edgeList N A)}|{(edgeList N A).length}|{showDone st.i iters.toNat!}"
   | ["rnd32", xs] => showInts ((ints xs).map rnd32)
+  | ["rnd32ovf", xs] =>
+    -- units of 2^-149: largest finite binary32 number = (2^24-1)·2^253
+    showBools ((ints xs).map fun (d : Int) => decide ((16777215 * 2 ^ 253 : Int) < ((rnd32 d).natAbs : Int)))
   | ["rnd64", xs] => showRats ((rats xs).map rnd64)
   | ["rnd32q", xs] =>
     -- binary32 rounding of arbitrary rationals: `rndQ 24` in units of `2^-149`, sign restored
